@@ -4,6 +4,7 @@
 mod pathgen;
 mod partial;
 mod idem;
+mod globsyntax;
 use corrlib::*;
 use pathgen::*;
 use serde_json::json;
@@ -553,6 +554,7 @@ pub fn run(rep: &mut Report) {
     rewrite_stream(rep, &mut rng);
     partial::run(rep);
     idem::run(rep);
+    globsyntax::run(rep);
     rep.notes.push("Java/Kotlin keys (map_partial_path): see part Partial (src/partial.rs); in the streams above exclusion markers and keys whose first character is a cased non-ASCII letter are outside the generated domain; relative keys without source dir are resolved against the process cwd, which the harness sets to <tree>/cw".into());
 }
 
@@ -585,6 +587,7 @@ pub fn replay(rep: &mut Report, case: &serde_json::Value) {
         }
         op if op.starts_with("c11.partial") => partial::replay(rep, case),
         op if op.starts_with("c11.idem") => idem::replay(rep, case),
+        op if op.starts_with("c11.glob") => globsyntax::replay(rep, case),
         _ => {}
     }
 }
